@@ -150,7 +150,33 @@ pub fn gen_full_definition(rng: &mut Rng, byte_complete: bool, identity_norm: bo
     def
 }
 
+/// Characters whose UTF-8 bytes collide with the Latin-1 code or the bytes of the split characters used
+/// by `c18_spice` (continuation byte 0xA9 in 'é'/'©'/U+07E9, lead byte 0xE9 in U+9000, 0xDF in U+07E9).
+const COLLIDING: &[char] = &['a', 'é', '©', '\u{9000}', '\u{07e9}', 'ß', '\u{a0}', ' ', '▁', '😀', '語'];
+
+/// C18: "every split behaviour with multi-byte patterns": extra split steps with character and string
+/// patterns over one-, two-, three- and four-byte characters and all six behaviours.
+fn c18_spice(rng: &mut Rng, def: &mut Definition) {
+    let behaviors = [
+        SplitBehavior::Match,
+        SplitBehavior::Remove,
+        SplitBehavior::Isolate,
+        SplitBehavior::Merge,
+        SplitBehavior::MergeLeft,
+        SplitBehavior::MergeRight,
+    ];
+    for _ in 0..rng.range(1, 2) {
+        let c = *rng.pick(&['é', '©', 'ß', '\u{a0}', '\u{ff}', '\u{80}', '▁', '語', '😀', ' ']);
+        let pattern: SplitPattern = if rng.chance(2, 3) { c.into() } else { c.to_string().as_str().into() };
+        def.config.split.push(Split::Pattern { pattern, behavior: *rng.pick(&behaviors) });
+    }
+}
+
 fn text_for(rng: &mut Rng, def: &Definition, alphabet_bias: bool) -> String {
+    text_for_wide(rng, def, alphabet_bias, false)
+}
+
+fn text_for_wide(rng: &mut Rng, def: &Definition, alphabet_bias: bool, wide: bool) -> String {
     let mut s = String::new();
     let n = rng.range(0, 6);
     for _ in 0..n {
@@ -165,7 +191,9 @@ fn text_for(rng: &mut Rng, def: &Definition, alphabet_bias: bool) -> String {
             3 => s.push_str(&random_text(rng, 2)),
             4 => s.push(' '),
             _ => {
-                if alphabet_bias {
+                if wide && rng.chance(1, 2) {
+                    s.push_str(&random_string(rng, COLLIDING, 10))
+                } else if alphabet_bias {
                     s.push_str(&random_string(rng, &['a', 'b', 'c', 'é', ' ', '▁', '語', 'x', 'ß'], 10))
                 } else {
                     s.push_str(&random_text(rng, 2))
@@ -285,7 +313,10 @@ pub fn gen(prop: &str, rng: &mut Rng, thorough: bool, out: &mut Sink) {
     let ntexts = if thorough { 150 } else { 40 };
     for d in 0..ndefs {
         let byte_complete = prop == "C01";
-        let def = gen_full_definition(rng, byte_complete, byte_complete && d % 2 == 0);
+        let mut def = gen_full_definition(rng, byte_complete, byte_complete && d % 2 == 0);
+        if prop == "C18" && d % 2 == 1 {
+            c18_spice(rng, &mut def);
+        }
         let mut lines = Vec::new();
         let tk = load(slot, "generated", def, &mut lines);
         slot += 1;
@@ -302,7 +333,7 @@ pub fn gen(prop: &str, rng: &mut Rng, thorough: bool, out: &mut Sink) {
         });
         let stripped = if prop == "C09" { guarded(|| Kitoken::from_definition(strip_for_ref(&tk.def)).ok()).flatten() } else { None };
         for _ in 0..ntexts {
-            let mut text = text_for(rng, &tk.def, true);
+            let mut text = text_for_wide(rng, &tk.def, true, prop == "C18");
             if prop == "C01" {
                 // the marker character itself is excluded by the property for marker-normalizing tokenizers
                 text = text.replace('▁', "_");
